@@ -109,8 +109,14 @@ func spaces(thorough bool) []Space {
 //	payment hash                        all-zero                 (invoice lookups by hash + address)
 //	preimage (keysend record, hold settle)  all-zero
 //	amount                              0                        (AmtPaid / AmountPaid `!= 0` checks, zero-value invoices)
+//	                                    2^62, 2^63               (sql_store.go int64(...) conversions of amounts, totals and AmtPaid)
 //	expiry                              0                        (expiry watcher `minHeight == 0`)
+//	                                    2^31, 2^32-1             (sql_store.go int32(...) conversion, uint32(height+delta) comparisons of update.go)
 //	AMP child index                     0 is used by every set; two HTLCs with the same set id and child index occur
+//	keysend record                      on an HTLC that pays an invoice created up front (update.go isValidKeySend)
+//	AMP record                          on an HTLC that carries the address of a non-AMP invoice (invoice ref by address only)
+//	a second invoice                    the stores resolve (hash, address) references against two indexes (channeldb
+//	                                    fetchInvoiceNumByRef / sql_store.go getInvoiceByRef: ErrInvRefEquivocation)
 func specialSpaces(depth int, thorough bool) []Space {
 	am := []int64{0, valueV / 2, valueV}
 	ex := []string{"ok", "z"}
@@ -552,8 +558,8 @@ func TestC15(t *testing.T) {
 		"evaluations":                   ops,
 		"distinct_nontrivial":           ntri + cc.DistinctOutcomes,
 		"rule": "sequential part: state = canonical LookupInvoice report (invoice state, terms, AmtPaid, per-HTLC state/amount/total/expiry/accept height/AMP data, AMP set states) " +
-			"of the real registry on the key-value store, identical on the SQL store, plus what every recorded circuit key carried, the verdict history and the height; " +
-			"transition = one event (NotifyExitHopHtlc with one point of the amount x declared total x address x expiry alphabet, exact replay, CancelInvoice, SettleHodlInvoice, set timeout, height+1) " +
+			"of the real registry on the key-value store, identical on the SQL store, plus what every recorded circuit key carried, the verdict history, the height and which accepted HTLCs the running registry instance holds a subscription / timer for; " +
+			"transition = one event (NotifyExitHopHtlc with one point of the amount x declared total x address x expiry alphabet, exact replay, CancelInvoice, SettleHodlInvoice, set timeout, height+1, registry restart) " +
 			"executed on both registries in lock-step, every event of the alphabet in every state of depth < bound (BFS, shortest histories); every transition runs all oracle clauses; " +
 			"evaluations = events executed on a registry (both stores, incl. replayed prefixes and interleaved executions); " +
 			"distinct_nontrivial = distinct canonical states in which the invoice records at least one HTLC, plus distinct final outcomes of the interleaving part",
@@ -573,14 +579,22 @@ func TestC15(t *testing.T) {
 		"interleavings":            cc.Coverage,
 	}
 	run.Assumptions = append(run.Assumptions,
-		"universe: one invoice at a time of kind regular / hold / zero-amount / AMP / keysend (just-in-time) / blinded-path (thorough: also spontaneous AMP), value 1000 msat; at most 3 recorded HTLCs; "+
+		"universe: one invoice under test at a time of kind regular / hold / zero-amount / AMP / keysend (just-in-time) / blinded-path (thorough: also spontaneous AMP, zero-amount hold), value 1000 msat; at most 3 recorded HTLCs; "+
 			"amounts {499,500,501,1000,1001}, declared totals {999,1000,1001,absent}, address {right,wrong,absent}, expiry {margin-1,margin,margin+1} above the base height, heights base..base+2; histories up to the per-space depth bound; "+
-			"plus one '-special' space per kind over the structural special values the invoices package singles out: all-zero payment address / path id (BlankPayAddr), declared total 0, all-zero AMP set id, all-zero payment hash, all-zero preimage (keysend record, hold settle), amount 0, expiry 0, crossed with amounts {0,500,1000}",
-		"circuit keys are interchangeable: a new HTLC always takes the lowest circuit key the invoice does not record (an HTLC refused without being recorded leaves no trace in the registry, so its key is free again)",
+			"plus one '-special' space per kind over the structural special values the invoices package singles out: all-zero payment address / path id (BlankPayAddr), declared total 0, all-zero AMP set id, all-zero payment hash, all-zero preimage (keysend record, hold settle), amount 0, expiry 0, crossed with amounts {0,500,1000}; "+
+			"in the special spaces of the invoices created up front also: expiry 2^31 and 2^32-1, amounts 2^62 / 2^63 and declared totals 2^62 / 2^63 (the int64 boundary of the SQL schema), a keysend record with a foreign / all-zero preimage on an HTLC that pays the invoice, an AMP record on an HTLC that carries the address of a non-AMP invoice, "+
+			"and a SECOND (bystander) invoice in the store with HTLCs that combine the hash of one invoice with the payment address of the other (both orders), the bystander's hash with a wrong / blank / no address",
+		"registry configuration explored: FinalCltvRejectDelta 10 against invoice deltas 8 / 10 / 12 (either margin binding); HtlcHoldDuration 10 s; AcceptKeySend / AcceptAMP off, on for the just-in-time kinds, and on in front of an invoice created up front (regular-jit); "+
+			"KeysendHoldTime 0 and 1 h (kshold kinds: the spontaneous keysend invoice is a hold invoice); GcCanceledInvoicesOnTheFly / GcCanceledInvoicesOnStartup off and on (kinds *-gcf, *-gcs, *-gc); HtlcInterceptor answering nothing, CancelSet or AmountPaid for single HTLCs (the *-icpt spaces; an HTLC whose amount the interceptor replaced counts with the replaced amount)",
+		"restart event R (the *-restart spaces, kshold): the registry is stopped and a new one started on the same store with the same clocks; the links come back with a new hodl channel; subscriptions and auto-release timers exist again only for HTLCs that were replayed to the new instance (part of the state key); "+
+			"the set-timeout event cancels exactly the accepted HTLCs of an open invoice for which the running instance holds a timer; a replay that is told 'held' for an HTLC whose hold time has passed waits for that HTLC's cancel resolution",
+		"an invoice may disappear only through the configured garbage collections: a successful CancelInvoice under GcCanceledInvoicesOnTheFly, a registry start under GcCanceledInvoicesOnStartup while the invoice is canceled; its HTLCs keep their last recorded state for the replay clause",
+		"circuit keys are interchangeable: a new HTLC always takes the lowest circuit key the invoice does not record (an HTLC refused without being recorded leaves no trace in the registry, so its key is free again); the keys share components the way real ones do (equal htlc ids on different channels, htlc id 0, several ids on one channel)",
 		"a replay is the exact re-notification of an HTLC the invoice records; an HTLC refused without being recorded is a new HTLC when presented again",
 		"the payment address is required iff the invoice's feature vector requires payment_addr (a blinded-path invoice, as generated by lnd, does not)",
+		"NOT in the alphabet: an HTLC to an invoice created up front whose keysend record holds the preimage of its own payment hash. lnd exempts it deliberately from the payment-address requirement (update.go updateLegacy, isValidKeySend: 'if this is a keysend payment, then we'll permit it to pass'); the sender demonstrably knows the preimage the settlement would release (observed: history h:kr:1000:ok on kind regular settles without address; reported to the lead, not judged)",
 		"the final-CLTV margin is judged at the height at which the HTLC arrived",
-		"SQL store = sqlite (Postgres not available offline); invoice expiry (time- and height-based, InvoiceExpiryWatcher) and the HTLC interceptor are outside the universe",
+		"SQL store = sqlite (Postgres not available offline); invoice expiry (time- and height-based, InvoiceExpiryWatcher) is outside the universe",
 		"the set-timeout event advances the clocks by one HtlcHoldDuration and waits for the registry's cancel resolutions (completion signal); the registry's clock is a clock.Clock implementation whose TickAfter is relative to its last Now reading",
 		"interleaving part: scheduling points are every acquisition of a mutex of invoiceregistry.go (sync import rewritten to the scheduler shim) and every InvoiceDB call of the registry; the event loop's set-timeout transaction (the one store access made without the registry lock) is a schedulable step in the timer cases; other work of lnd's own goroutines runs freely between steps; schedules are enumerated up to the stated preemption bound",
 		"states in which a violation made the two stores diverge are not expanded further (with the known key-value-store finding this prunes AMP states after a settled set id is paid again)")
